@@ -185,6 +185,12 @@ func checkC01(f forest) *core.Failure {
 			SigAlg: fittingSigAlgs(keyKind(effKeyAlg(iss)))[i%4], Extensions: []core.Extension{{Kind: core.KAKI, HasContent: true, AKI: "hash"}}}
 		w2.Ents = append(w2.Ents, leaf)
 		d.Put(leaf.File, leaf.Render())
+		if i == 0 && f.Imported[iss.EffAlias()] == "" {
+			// this issuer is itself replaced in the same run (subject edit): its new leaf must be signed by, and name, the new certificate
+			e2 := w2.Ent(iss.EffAlias())
+			e2.Subject = append(append([]core.RDN(nil), e2.Subject...), core.RDN{Key: "OU", Value: "renamed in run 2"})
+			d.Put(e2.File, e2.Render())
+		}
 	}
 	res2 := core.Run(d, core.FlagDefault)
 	if res2.Panic != "" {
